@@ -165,7 +165,7 @@ def main(ctx):
             corr_bad.append({"what": "model %d lines, code %d" % (len(model), len(real))})
         for a, m in zip(real, model):
             n_cmp += len(a.split()) - 1
-            if a != m and len(corr_bad) < 5:
+            if a.split() != m.split() and len(corr_bad) < 5:
                 ta, tm = a.split(), m.split()
                 k = next((i for i, (x, y) in enumerate(zip(ta, tm)) if x != y), None)
                 corr_bad.append({"line": ta[0], "position": k, "code": unhex(ta[k]) if k and len(ta[k]) == 16 else None, "model": unhex(tm[k]) if k and k < len(tm) and len(tm[k]) == 16 else None})
